@@ -557,8 +557,8 @@ Lemma gstep_one am xa e am1 xa1 :
   (am1 = true -> am = true \/ e = EAddCalled) /\ (xa1 = true -> xa = true \/ e = XCalled KAdd).
 Proof.
   destruct e; cbn; intros H; try (inversion H; subst; auto; fail).
-  - destruct ok; inversion H; subst; auto. split; auto. discriminate.
-  - destruct k; inversion H; subst; auto.
+  - destruct ok; inversion H; subst; intuition congruence.
+  - destruct k; inversion H; subst; intuition congruence.
 Qed.
 
 Lemma gstep_am tr : forall am xa am' xa',
@@ -566,9 +566,9 @@ Lemma gstep_am tr : forall am xa am' xa',
   (am' = true -> am = true \/ In EAddCalled tr)
   /\ (xa' = true -> xa = true \/ In (XCalled KAdd) tr).
 Proof.
-  induction tr as [|e tr IH]; intros am xa am' xa' H; cbn in H.
+  induction tr as [|e tr IH]; intros am xa am' xa' H; cbn [orun] in H.
   - inversion H; subst; auto.
-  - destruct (gstep (am, xa) e) as [[am1 xa1]|] eqn:G; [|discriminate].
+  - destruct (gstep (am, xa) e) as [[am1 xa1]|] eqn:G; [|discriminate H].
     destruct (IH _ _ _ _ H) as [A B]. destruct (gstep_one _ _ _ _ _ G) as [A1 B1].
     split; intros E.
     + destruct (A E) as [E1|E1]; [|right; right; auto].
@@ -683,63 +683,37 @@ Definition need (timeout : bool) (s : st) : nat :=
 
 Definition Rcause (timeout : bool) (s : st) (x : nat * bool) : Prop :=
   let '(rc, rm) := x in
-  wfb s = true /\ (s_rmc s = true -> rm = true) /\ need timeout s <= rc.
+  wfb s = true /\ (s_rmc s = true -> rm = true) /\ need timeout s <= rc
+  /\ (s_rr s = true -> need timeout s = 0).
 
 Lemma Rcause_tau c s s' x :
   In s' (tau c s) -> Rcause (c_timeout c) s x -> Rcause (c_timeout c) s' x.
 Proof.
-  destruct x as [rcn rm]. intros Hin (W & Hrm & Hn).
-  destruct (wf_tau _ _ _ Hin W) as [W' _].
-  destruct s as [p rmc cd sd rc hu stl phu ad xs rr].
-  unfold Rcause, need in *. unfold tau, managed in Hin.
-  cbn [s_pc s_rmc s_cdone s_sdone s_rc s_hu s_stale s_phu s_add s_x s_rr] in *.
+  destruct x as [rcn rm]. destruct s as [p rmc cd sd rc hu stl phu ad xs rr].
+  unfold Rcause, need, tau, wfb, managed, add_none, rc_none, x_none, x_addst, x_eff, after_stream.
+  cbn [s_pc s_rmc s_cdone s_sdone s_rc s_hu s_stale s_phu s_add s_x s_rr].
+  intros Hin (W & Hrm & Hn & Hrr).
   destruct (c_timeout c) eqn:Et;
-  inv_in Hin; subst; cbn [s_pc s_rmc s_cdone s_sdone s_rc s_hu s_stale s_phu s_add s_x s_rr] in *;
-    repeat split; auto; try discriminate.
-  all: try (destruct sd, cd; cbn in *; try discriminate; try lia; fail).
-  all: try (destruct p; cbn in *; try discriminate; destruct sd, cd; cbn in *; try discriminate; try lia; fail).
-  all: repeat match goal with
-              | b : bool |- _ => destruct b
-              | b : rcst |- _ => destruct b
-              | b : pc |- _ => destruct b
-              end; cbn in *; try discriminate; try lia.
+  inv_in Hin; subst s'; cbn [s_pc s_rmc s_cdone s_sdone s_rc s_hu s_stale s_phu s_add s_x s_rr set_pc] in *.
+  all: try (repeat split; auto; fail).
+  all: adaptive.
 Qed.
 
 Lemma Rcause_vis c s e s' x :
   In s' (vis c s e) -> Rcause (c_timeout c) s x ->
   exists x', cstep (c_timeout c) x e = Some x' /\ Rcause (c_timeout c) s' x'.
 Proof.
-  destruct x as [rcn rm].
-  intros Hin (W & Hrm & Hn).
-  destruct (wf_vis _ _ _ _ Hin W) as [W' _].
-  destruct s as [p rmc cd sd rc hu stl phu ad xs rr].
-  unfold Rcause, need in *. unfold vis, managed in Hin. unfold wfb, managed, add_none, rc_none in W.
-  cbn [s_pc s_rmc s_cdone s_sdone s_rc s_hu s_stale s_phu s_add s_x s_rr] in *.
+  destruct x as [rcn rm]. destruct s as [p rmc cd sd rc hu stl phu ad xs rr].
+  unfold Rcause, need, vis, wfb, managed, add_none, rc_none, x_none, x_addst, x_eff, after_stream.
+  cbn [s_pc s_rmc s_cdone s_sdone s_rc s_hu s_stale s_phu s_add s_x s_rr].
+  intros Hin (W & Hrm & Hn & Hrr).
   destruct (c_timeout c) eqn:Et;
   destruct e as [ |ok| |ok| |ok| | |ok|ok| |ok|ok|r| |n| | | | |k|k ok| | ];
-    cbn [cstep];
-    inv_in Hin; subst; cbn [s_pc s_rmc s_cdone s_sdone s_rc s_hu s_stale s_phu s_add s_x s_rr] in *;
-    try (eexists; split; [reflexivity|]); cbn [orb];
-    try (repeat split; auto; try discriminate;
-         repeat match goal with
-                | b : bool |- _ => destruct b
-                | b : rcst |- _ => destruct b
-                | b : addst |- _ => destruct b
-                end; cbn in *; try discriminate; try lia; fail).
-  - destruct p; cbn in Heqb0; try discriminate.
-    destruct rmc, rc, ad, cd; cbn in W; try discriminate.
-    repeat split; auto; cbn; try lia; try discriminate.
-    destruct sd; cbn; lia.
-  - destruct rm.
-    + eexists; split; [reflexivity|]. repeat split; auto. cbn in *.
-      destruct rc, cd; cbn in *; lia.
-    + assert (cd = false).
-      { destruct cd; auto. destruct rmc; [specialize (Hrm eq_refl); discriminate|].
-        cbn in W. rewrite !andb_false_r in W. discriminate. }
-      subst cd. cbn in Hn.
-      destruct rcn as [|k]; [destruct rc; cbn in Hn; lia|].
-      eexists; split; [reflexivity|]. repeat split; auto. cbn in *.
-      destruct rc; cbn in *; lia.
+    cbn [cstep orb];
+    inv_in Hin; subst s'; cbn [s_pc s_rmc s_cdone s_sdone s_rc s_hu s_stale s_phu s_add s_x s_rr set_pc] in *.
+  all: repeat first
+         [ solve [eexists; split; [reflexivity|]; adaptive]
+         | split_with ltac:(cbn in *; try discriminate; try lia) ].
 Qed.
 
 Lemma cause_full c tr s :
